@@ -363,7 +363,14 @@ func (g *fmtGen) stmt(d int, inLoop, inFunc bool) {
 			attrs := []func(){
 				func() { g.tok("kindmatch"); g.tok("["); g.tok("\"a.*\""); g.tok("]") },
 				func() { g.tok("scopematch"); g.tok("["); g.tok("]") },
-				func() { g.tok("statematch"); g.tok("{"); g.tok("\"k\""); g.tok(":"); g.tok("null"); g.tok("}") },
+				func() {
+					g.tok("statematch")
+					g.tok("{")
+					g.tok("\"k\"")
+					g.tok(":")
+					g.tok("null")
+					g.tok("}")
+				},
 				func() {
 					g.tok("priority")
 					if g.rng.Intn(3) == 0 {
